@@ -475,7 +475,7 @@ fn validate_challenge(ca: &Ca, ai: usize, ci: usize, thumb: &str) -> (bool, Valu
                     let p = alpn.get("path").and_then(|v| v.as_str()).unwrap_or("").replace("{identifier}", ident);
                     target = format!("unix:{p}");
                     match std::os::unix::net::UnixStream::connect(&p) {
-                        Ok(s) => { let _ = s.set_read_timeout(Some(std::time::Duration::from_secs(5))); tls_probe(s, ident, &protos) }
+                        Ok(s) => { let _ = s.set_read_timeout(Some(std::time::Duration::from_secs(5))); tls_probe_versions(s, ident, &protos, alpn.get("min_tls").and_then(|v| v.as_str()), alpn.get("max_tls").and_then(|v| v.as_str())) }
                         Err(e) => json!({"handshake_ok": false, "connect_err": e.to_string()}),
                     }
                 } else {
@@ -483,7 +483,7 @@ fn validate_challenge(ca: &Ca, ai: usize, ci: usize, thumb: &str) -> (bool, Valu
                     let port = alpn.get("port").and_then(|v| v.as_u64()).unwrap_or(5001);
                     target = format!("{host}:{port}");
                     match TcpStream::connect((host.as_str(), port as u16)) {
-                        Ok(s) => { let _ = s.set_read_timeout(Some(std::time::Duration::from_secs(5))); tls_probe(s, ident, &protos) }
+                        Ok(s) => { let _ = s.set_read_timeout(Some(std::time::Duration::from_secs(5))); tls_probe_versions(s, ident, &protos, alpn.get("min_tls").and_then(|v| v.as_str()), alpn.get("max_tls").and_then(|v| v.as_str())) }
                         Err(e) => json!({"handshake_ok": false, "connect_err": e.to_string()}),
                     }
                 };
@@ -1172,6 +1172,22 @@ fn handle(g: &mut Global, req: &Request, t_recv: u64) -> Exchange {
                             .and_then(|s| s.as_str())
                             .map(String::from)
                             .unwrap_or_else(|| cfg_str(ca, "authz_status", "pending"));
+                        // like Boulder: an authorization of this account for this identifier that is still pending is handed out again
+                        if cfg_bool(ca, "reuse_pending_authz", false) {
+                            let acc = j.account.unwrap_or(0);
+                            let found = (0..ca.authzs.len()).find(|&i| {
+                                let a = &ca.authzs[i];
+                                a.status == "pending" && !a.posted && a.identifier_type == *t && a.identifier_value == val && a.wildcard == wildcard
+                                    && ca.orders[a.order].account == acc
+                            });
+                            if let Some(i) = found {
+                                ca.authzs[i].order = oi;
+                                ca.authzs[i].fetched = false;
+                                azs.push(i);
+                                extra["reused_authz"] = json!(i);
+                                continue;
+                            }
+                        }
                         let tok_len = cfg_u64(ca, "token_len", 43) as usize;
                         let challenges = types.iter().map(|ty| Chall {
                             ty: ty.clone(),
